@@ -29,9 +29,32 @@ void MathMLPrinter::bvisit(const Basic &x)
     throw SymEngineException("Error: not supported");
 }
 
+// Escape the characters that cannot appear literally in XML character data
+static std::string xml_escape(const std::string &name)
+{
+    std::string out;
+    out.reserve(name.size());
+    for (char c : name) {
+        switch (c) {
+            case '&':
+                out += "&amp;";
+                break;
+            case '<':
+                out += "&lt;";
+                break;
+            case '>':
+                out += "&gt;";
+                break;
+            default:
+                out += c;
+        }
+    }
+    return out;
+}
+
 void MathMLPrinter::bvisit(const Symbol &x)
 {
-    s << "<ci>" << x.get_name() << "</ci>";
+    s << "<ci>" << xml_escape(x.get_name()) << "</ci>";
 }
 
 void MathMLPrinter::bvisit(const Integer &x)
@@ -293,7 +316,7 @@ void MathMLPrinter::bvisit(const UnevaluatedExpr &x)
 
 void MathMLPrinter::bvisit(const FunctionSymbol &x)
 {
-    s << "<apply><ci>" << x.get_name() << "</ci>";
+    s << "<apply><ci>" << xml_escape(x.get_name()) << "</ci>";
     const auto &args = x.get_args();
     for (const auto &arg : args) {
         arg->accept(*this);
